@@ -81,7 +81,7 @@ def shrink_factory(ctx, prop):
     return shrink
 
 
-def run(ctx, prop, escalated=False):
+def run(ctx, prop, escalated=False, finish=True):
     quick = ctx.tier == "quick" and not escalated
     n_random = 2500 if quick else 40000
     cases = []
@@ -105,6 +105,9 @@ def run(ctx, prop, escalated=False):
                 ctx.count("verdict:" + o.ret)
         if c.data["scenario"]["dry"]:
             ctx.count("dry_runs")
+    if not finish:
+        account(ctx, cases)
+        return cases
     diffs = compare(cases)
     account(ctx, cases)
     judge(ctx, cases, diffs, "execution-graph", shrink=shrink_factory(ctx, prop))
